@@ -678,13 +678,11 @@ class CategoricalClassification:
             for feature in Xs_T:
                 unique_per_label = {}
 
+                label_offsets = np.concatenate(([0], np.cumsum(label_count)))
                 for i in range(n_labels):
-                    if i == 0:
-                        unique = np.unique(feature[:label_count[i]])
-                        unique_per_label[label_values[i]] = set(unique)
-                    else:
-                        unique = np.unique(feature[label_count[i - 1]:label_count[i - 1] + label_count[i] - 1])
-                        unique_per_label[label_values[i]] = set(unique)
+                    # rows are sorted by label: label i occupies [label_offsets[i], label_offsets[i + 1])
+                    unique = np.unique(feature[label_offsets[i]:label_offsets[i + 1]])
+                    unique_per_label[label_values[i]] = set(unique)
 
                 ixs = np.random.choice(n, n_flip, replace=False)
 
